@@ -63,6 +63,12 @@ def fault_ops(cls, seed):
         # everything C06 promises must still happen (ConnSend.tla; the regression scenarios l2_D19_* add the schedule)
         "stalled_member_close": ([dict(op="stall", c=V), dict(op="aburst_if", c=2, n=1500, req=dict(k="Custom", len=10000, dig=0, to=[], ts=9)),
                                   dict(op="sleep", ms=700), dict(op="close", c=V), dict(op="waitburst_if", c=2, ms=60000)], "fatal"),
+        # a handler call of the victim lasts longer than the idle timeout while its next messages are already queued: the idle
+        # timer expires with the loop away; whichever case the loop takes next, the connection ends at the latest when the
+        # client goes away, through the normal path, once (config: hold_ms inside the first Custom handler call)
+        "slow_handler_idle": ([R(V, k="Custom", len=5, dig=1, to=[], ts=9), dict(op="burst", c=V, n=5, req=dict(k="Ping", rid=77))] +
+                              [x for i in range(14) for x in (dict(op="barrier", c=3, ms=2000 * TS), dict(op="barrier_if", c=2, ms=2000 * TS), dict(op="sleep", ms=45 * TS))] +
+                              [dict(op="close", c=V)], "fatal"),
         "bad_join_ids": ([J(V, -1, 31), J(V, 99, 32), R(V, k="EntityDelete", rid=33, eid=999, ts=3),
                           R(V, k="CompAdd", rid=34, tid=0, eid=0, data=1, ts=3), R(V, k="SignedLatency", rid=35, n=0, wallet="")], "benign_if_joined"),
     }
@@ -70,14 +76,14 @@ def fault_ops(cls, seed):
 
 
 CLASSES = ["garbage", "truncated", "notimestamp", "empty", "text", "close", "closeframe", "receipt_empty", "burst_receipt", "burst_fail",
-           "idle", "unknown_type", "pose_nil", "action_nil", "asset_empty", "custom_huge", "dagaz_nil", "dagaz_nan", "chatty", "bad_join_ids", "stalled_member_close"]
+           "idle", "unknown_type", "pose_nil", "action_nil", "asset_empty", "custom_huge", "dagaz_nil", "dagaz_nan", "chatty", "bad_join_ids", "stalled_member_close", "slow_handler_idle"]
 LIFE = ["fresh", "alone", "full", "switched"]
 
 
 def scenario(cls, life, seed):
     """victim = connection 1; witness 2 shares its session (life=full); witness 3 lives in another session"""
     ops = [dict(op="dial", c=1), dict(op="dial", c=2), dict(op="dial", c=3)]
-    idle = 250 * TS if cls in ("idle", "chatty") else 60000
+    idle = 250 * TS if cls in ("idle", "chatty", "slow_handler_idle") else 60000
     ops += [J(3, 0, 1), dict(op="barrier", c=3)]          # session 1: the bystander
     if life in ("alone", "full", "switched"):
         ops += [J(1, 0, 2), dict(op="barrier", c=1)]        # session 2: the victim's
@@ -120,8 +126,10 @@ def scenario(cls, life, seed):
     ops += [dict(op="barrier", c=2 if life in ("full", "switched") else 3, ms=3000 * slow), dict(op="barrier", c=3, ms=3000 * slow)]
     if life in ("full", "switched"):
         ops += [dict(op="sleep", ms=(150 if life == "switched" else 30)), dict(op="barrier", c=2, ms=3000 * slow)]
-    return dict(sid="%s/%s/%d" % (cls, life, seed), cls=cls, life=life, fatal=fatal,
-                config=dict(mods=MODS, idle_ms=idle, frame_ms=(60 if life == "switched" else 2)), ops=ops)
+    cfg = dict(mods=MODS, idle_ms=idle, frame_ms=(60 if life == "switched" else 2))
+    if cls == "slow_handler_idle":
+        cfg.update(hold_conn=1, hold_name="Custom", hold_ms=3 * idle)
+    return dict(sid="%s/%s/%d" % (cls, life, seed), cls=cls, life=life, fatal=fatal, config=cfg, ops=ops)
 
 
 def judge(sc, r):
@@ -321,7 +329,7 @@ def run(work, tier, replay=None):
                 s.setdefault("cls", "regression"); s.setdefault("life", "custom"); s["regression"] = True
     else:
         reps = 1 if tier == "quick" else 6
-        scs = [scenario(c, l, rnd.randint(0, 10 ** 6)) for c in CLASSES for l in LIFE for _ in range(reps)]
+        scs = [scenario(c, l, rnd.randint(0, 10 ** 6)) for c in CLASSES for l in LIFE for _ in range(reps * (4 if c == "slow_handler_idle" else 1))]
         import glob
         for f in sorted(glob.glob(os.path.join(VERIF, "scenarios", "l2_*.ndjson"))):
             for s in read_ndjson(f):
@@ -399,7 +407,11 @@ def run(work, tier, replay=None):
             problems.append((sc, bad))
     # the real-time scenarios (idle timeout) are judged again on their own, one at a time, before they count: a harness
     # that was descheduled for longer than the idle timeout makes a witness idle out, which is the server being right
-    again = [(sc, bad) for sc, bad in problems if sc.get("cls") in ("idle", "chatty") and not sc.get("regression")]
+    timing = ("a witness connection stopped making progress", "a benign input ended or wedged the connection")
+    again = [(sc, bad) for sc, bad in problems if sc.get("cls") in ("idle", "chatty", "slow_handler_idle") and not sc.get("regression")
+             and any(b.startswith(timing[0]) or b.startswith(timing[1]) for b in bad)
+             and not any(b.startswith("the offending connection's handler did not return") or b.startswith("panic") or b.startswith("goroutines leaked")
+                         or b.startswith("handlers that never returned") for b in bad)]
     for sc, bad in again:
         for attempt in range(2):
             r2 = run_some([sc], "retry")[0]
